@@ -174,6 +174,8 @@ type Hooks struct {
 	InitGlobal func(it *Interp, g *ssa.Global, obj int) bool
 	// MaxSteps bounds the work.
 	MaxSteps int
+	// Polys enables exact polynomial tracking (poly.go).
+	Polys bool
 	// MaxForks bounds the number of undecided branches explored on both sides (0: none).
 	MaxForks int
 }
@@ -195,6 +197,9 @@ type Interp struct {
 	Err      error
 	InstrsSeen map[ssa.Instruction]bool
 	ValOf    map[ssa.Value]Val // join of the abstract values each integer instruction took
+	carries  map[string]string // poly.go: (polynomial, shift) -> carry variable
+	highOf   map[string]splitInfo // carry variable -> what it is the high part of
+	lowOf    map[string]splitInfo // key of a low part -> what it is the low part of
 }
 
 // NewInterp creates an interpreter with an empty heap.
@@ -610,6 +615,12 @@ func (it *Interp) instr(f *frame, in ssa.Instruction) {
 		if iv, ok := v.(Val); ok {
 			if w, sg, isInt := intInfo(x.Type()); isInt {
 				r, lossy := Convert(iv, w, sg)
+				if it.H.Polys {
+					r.Poly = nil
+					if pv := it.polyOf(iv); pv != nil && !iv.Signed && !sg && iv.Lo.Sign() >= 0 {
+						r.Poly = it.polyLow(pv, iv.Hi, w)
+					}
+				}
 				if lossy && w < iv.W && !onlyMasked(x) {
 					// a narrowing that drops possibly-set bits is fine only when the dropped bits are consumed elsewhere;
 					// the rule decides (recorded as a finding of kind "narrow")
@@ -964,6 +975,44 @@ func (it *Interp) binop(f *frame, x *ssa.BinOp) {
 		}
 	default:
 		r = Top(a.W, a.Signed)
+	}
+	if it.H.Polys && r.Lo != nil {
+		var pop string
+		k := 0
+		switch x.Op {
+		case token.ADD:
+			pop = "add"
+		case token.SUB:
+			pop = "sub"
+		case token.MUL:
+			pop = "mul"
+		case token.AND:
+			pop = "and"
+		case token.OR:
+			pop = "or"
+		case token.SHL, token.SHR:
+			if b.IsConst() && b.Lo.IsInt64() && int(b.Int64()) < a.W {
+				k = int(b.Int64())
+				pop = "shl"
+				if x.Op == token.SHR {
+					pop = "shr"
+				}
+			}
+		case token.QUO, token.REM:
+			// division by a power of two is a shift / mask
+			if b.IsConst() && b.Lo.Sign() > 0 && b.Lo.BitLen()-1 == int(b.Lo.TrailingZeroBits()) {
+				k = b.Lo.BitLen() - 1
+				pop = "shr"
+				if x.Op == token.REM {
+					pop = "low"
+				}
+			}
+		}
+		if pop != "" {
+			r.Poly = it.polyBin(pop, a, b, r, k)
+		} else {
+			r.Poly = nil
+		}
 	}
 	f.env[x] = it.note(r)
 }
